@@ -169,6 +169,34 @@ def run_model(ctx, lines, timeout=3600):
     return out
 
 
+class ModelSession:
+    """interactive session with the model driver (for generators that need the model's answers,
+    e.g. ciphertexts, to build the following operations)"""
+
+    def __init__(self):
+        self.p = subprocess.Popen([driver_path()], stdin=subprocess.PIPE, stdout=subprocess.PIPE, text=True, bufsize=1)
+        self.lines = []
+        self.outs = []
+
+    def ask(self, line):
+        self.p.stdin.write(line + "\n")
+        self.p.stdin.flush()
+        r = self.p.stdout.readline()
+        if not r:
+            raise BrokenCheck("model driver died on: " + line[:200])
+        r = r.rstrip("\n")
+        self.lines.append(line)
+        self.outs.append(r)
+        return r
+
+    def close(self):
+        try:
+            self.p.stdin.close()
+            self.p.wait(timeout=10)
+        except Exception:
+            self.p.kill()
+
+
 # ---------------------------------------------------------------- C side
 
 HX_SOURCES = None
